@@ -8,6 +8,7 @@ D-b  ordering of the tuning pipeline: relaxation, then generalisation, then comm
 D-c  rounding: every ratio formatter converts probability*100 with a rounding conversion (known finding:
      decimals=0 truncates; a golden file pins it);
 D-d  the OR construction copies property, cardinality, figures and direction from the dominant constraint;
+D-f  output file vs string: the buffered writer hands both sinks the same lines (shared with C18);
 D-e  no class-level mutable state is written by the formatters (a memo shared by all Shapers would make
      output depend on earlier Shapers' options).
 Undecided: that two complete outputs differ only in the documented way (a relation between two runs)."""
@@ -17,6 +18,7 @@ from ..report import Ob, Floor
 from ..rules.effect import EffectIndex, OptionInfluence
 from ..rules import twin, globalstate
 from .. import exceptions
+from .c18 import writer_obligations
 
 INIT = "shexer.shaper:Shaper.__init__"
 SHEX = "shexer.shaper:Shaper.shex_graph"
@@ -115,6 +117,8 @@ def check(ctx, tier):
     o_glob, n_glob = globalstate.class_level_mutables(ctx, "D-e")
     obs += o_glob
     obs += twin.check_pairs(ctx, "D-a", "C13")
+    # D-f: the file sink receives exactly the lines the string sink receives (output file vs string)
+    obs += ctx.attempt(writer_obligations, ctx, "D-f", default=[])
     exceptions.apply(obs)
     floors = [Floor("option control sites examined", nsites, 30), Floor("OR construction sites", len(sites), 1),
               Floor("classes examined for class-level state", n_glob, 60)]
